@@ -209,6 +209,9 @@ def run(chk, facts, tier, only=None):
             ms = [n["m"] for n in method_calls(h["body"], r"^deserialize_")]
             chk.expect(ms == [tgt], f"forward:{name}", f"{name} must forward to {tgt}; found {ms}")
 
+    def r7():
+        de_rules.rule_visitor_table(chk, facts)
+
     def r6():
         hs = [h for k, h in c.hir.items() if "bounded_vec" in k and k.endswith("::deserialize")]
         if not hs:
@@ -281,10 +284,14 @@ def run(chk, facts, tier, only=None):
                           ("C08.R3", "tagged byte-buffer protocol: producers and all visitors agree on tags and layout", r3),
                           ("C08.R4", "primitive matrix, decoder rows", r4),
                           ("C08.R5", "dispatch table of deserialize_any", r5),
-                          ("C08.R6", "bounded vectors: the three limit tests precede every push", r6)):
+                          ("C08.R6", "bounded vectors: the three limit tests precede every push", r6),
+                          ("C08.R7", "visitor-call table: every decoder routine hands the visitor the kind of value it is for", r7)):
         if only and only != rid:
             continue
         chk.run_rule(rid, desc, fn)
+    if only is None:
+        import c09
+        chk.include(c09, "C09.R1", "C08.R8", facts)     # the documented host limit (128-bit range) is decided exactly by the number kernels
 
 
 def variant_paths_pat(m):
